@@ -279,6 +279,35 @@ RootSub = type("RootSub", (Root,), dict([("_get_u_" + _n, _mk_sub(_n, _fn)) for 
 
 # a class whose property depends on an INSTANCE trait of the child through a required name (every object of the pool
 # gets the trait with add_trait before the links are set)
+# an owner whose CONSTRUCTION touches the observed container defaults (the documented traits_init hook): the default
+# values are created, and must be hooked, while the object is still being constructed
+class RootTouch(Root):
+    def traits_init(self):
+        self.kids, self.m, self.s, self.nums
+
+
+# pool objects that have an observed (cached) Property themselves, and an owner that observes ALL traits of its child
+# with the `*` wildcard: a change two levels down changes only the child's COMPUTED trait
+class NodeK(Node):
+    ksum = Property(Int, observe="kids.items.value")
+
+    @cached_property
+    def _get_ksum(self):
+        return sum(k.value for k in self.kids)
+
+
+def f_star(o):
+    c = o.child
+    return c.value + 10 * sum(k.value for k in c.kids) if c is not None else -1
+
+
+EXTRA_PROPS["star"] = f_star
+RootStar = type("RootStar", (Root,), {
+    "c_star": Property(Int, observe="child.*"), "_get_c_star": _mk("star", f_star, True),
+    "u_star": Property(Int, observe="child.*"), "_get_u_star": _mk("star", f_star, False),
+    "__module__": __name__})
+
+
 RootDynChild = type("RootDynChild", (Root,), {
     "c_dynchild": Property(Int, observe="child.extra"), "_get_c_dynchild": _mk("dynchild", f_dynchild, True),
     "u_dynchild": Property(Int, observe="child.extra"), "_get_u_dynchild": _mk("dynchild", f_dynchild, False),
@@ -352,6 +381,18 @@ def walk(obj, path, idx, matched, view):
 def snapshot_view(root, pname, idx):
     if pname == "raw":
         return {("t", id(root), "raw")}, [-7, f_raw(root)]
+    if pname == "star":
+        # `child.*`: every trait of the child; what its computed trait ksum depends on is reached through ksum
+        c = root.__dict__.get("child")
+        matched = {("t", id(root), "child")}
+        if c is None:
+            return matched, [-7, -1]
+        matched |= {("t", id(c), nm) for nm in c.trait_names()}
+        ks = list(c.__dict__.get("kids") or [])
+        matched.add(("c", id(c.__dict__.get("kids"))))
+        matched |= {("t", id(k), "value") for k in ks}
+        return matched, [-7, idx.get(id(c), -9), c.__dict__.get("value") or 0, len(ks)] + \
+            [x for k in ks for x in (idx.get(id(k), -9), k.__dict__.get("value") or 0)]
     if pname == "chain":
         # the dependency is itself a property: its value is the view, `value` is what a mutation touches
         return {("t", id(root), "value")}, [-7, f_inner(root)]
@@ -368,6 +409,12 @@ def run_case(case):
     added = case.get("added")                # "instance" / "class": the property is added with add_trait / add_class_trait
     redecl = bool(case.get("redecl"))        # prop "scalar", cached: c_scalar redeclared with observe="other"
     RootCls = RootRedecl if redecl else RootSub if sub else RootDynChild if pname == "dynchild" else Root
+    touch = bool(case.get("touch")) and RootCls is Root      # the root's construction touches its container defaults
+    if touch:
+        RootCls = RootTouch
+    if pname == "star":
+        RootCls = RootStar
+    NodeCls = NodeK if pname == "star" else Node
     attr = ATTRS.get((pname, cached)) or ("u_" if (sub or not cached) else "c_") + pname
     if added:
         # listed finding: has_traits.add_trait / add_class_trait ignore the `observe` metadata of a Property
@@ -396,9 +443,9 @@ def run_case(case):
                       s=set(pool[j] for j in d["s"]), nums=list(d["nums"]))
             if d.get("child") is not None:
                 kw["child"] = pool[d["child"]]
-            pool[i] = (RootCls if i == 0 else Node)(**kw)
+            pool[i] = (RootCls if i == 0 else NodeCls)(**kw)
     else:
-        pool = [RootCls()] + [Node() for _ in range(n - 1)]
+        pool = [RootCls()] + [NodeCls() for _ in range(n - 1)]
         if pname == "dynchild":
             for o in pool:
                 o.add_trait("extra", Int())
@@ -407,6 +454,13 @@ def run_case(case):
             o.value = d["value"]
             if d.get("child") is not None:
                 o.child = pool[d["child"]]
+            if touch and i == 0:
+                # the defaults created during construction are filled in place, never reassigned
+                o.kids.extend([pool[j] for j in d["kids"]])
+                o.m.update({k: pool[j] for k, j in d["m"]})
+                o.s.update(set(pool[j] for j in d["s"]))
+                o.nums.extend(list(d["nums"]))
+                continue
             o.kids = [pool[j] for j in d["kids"]]
             o.m = {k: pool[j] for k, j in d["m"]}
             o.s = set(pool[j] for j in d["s"])
